@@ -7,6 +7,9 @@ package c02
 
 import (
 	"fmt"
+	"os"
+	"runtime/debug"
+	"runtime/pprof"
 	"sort"
 	"strings"
 	"time"
@@ -94,6 +97,7 @@ type detail struct {
 	Rule     string   `json:"rule,omitempty"`
 	Library  []string `json:"library_errors,omitempty"`
 	Ref      []string `json:"reference_offences,omitempty"`
+	Shrunk   string   `json:"shrunk_document,omitempty"`
 }
 
 type ck struct {
@@ -135,6 +139,11 @@ func firstLine(s string) string {
 func refOffences(src []byte, offs []validate.Offence) []string {
 	var out []string
 	for _, o := range offs {
+		if os.Getenv("VERIF_C02_DEBUG") != "" {
+			for _, n := range o.Nodes {
+				fmt.Fprintf(os.Stderr, "DBG node %T %p %+v\n", n, n, n.Pos())
+			}
+		}
 		s := o.Msg
 		if o.Optional {
 			s = "(optional) " + s
@@ -224,13 +233,13 @@ func (k *ck) evaluate(cs *Case) map[string]validate.Result {
 			if s := k.classify(cs, rule, sig, res); s != "" {
 				sig = s
 			}
-			k.violation(sig, "library reports an error, the reference finds the rule satisfied", mk(rule, libErrors(nil, vr), rr.Offences))
+			k.violation(sig, "library reports an error, the reference finds the rule satisfied", k.withShrunk(cs, rule, "reject:"+rule, sig, mk(rule, libErrors(nil, vr), rr.Offences)))
 		case !reports && rr.Must:
 			sig := "accept:" + rule
 			if s := k.classify(cs, rule, sig, res); s != "" {
 				sig = s
 			}
-			k.violation(sig, "library reports nothing, the reference finds the rule violated", mk(rule, nil, rr.Offences))
+			k.violation(sig, "library reports nothing, the reference finds the rule violated", k.withShrunk(cs, rule, "accept:"+rule, sig, mk(rule, nil, rr.Offences)))
 		default:
 			if rr.May && !rr.Must {
 				c.DontCare("open:" + rule)
@@ -238,7 +247,7 @@ func (k *ck) evaluate(cs *Case) map[string]validate.Result {
 				c.Feature("agreed:" + rule)
 			}
 		}
-		if reports && rr.May {
+		if reports && rr.May && !rr.Open {
 			ok := Starts(src, firstNodes(rr.Offences))
 			for _, e := range vr.Errors {
 				if len(e.Locations) == 0 {
@@ -247,7 +256,7 @@ func (k *ck) evaluate(cs *Case) map[string]validate.Result {
 				}
 				l := e.Locations[0]
 				if !ok[[2]int{l.Line, l.Column}] {
-					k.violation("location:"+rule, fmt.Sprintf("first location %d:%d of %q is not the start of an offending node", l.Line, l.Column, firstLine(e.Message)), mk(rule, libErrors(nil, vr), rr.Offences))
+					k.violation("location:"+rule, fmt.Sprintf("first location %d:%d of %q is not the start of an offending node", l.Line, l.Column, firstLine(e.Message)), k.withShrunk(cs, rule, "location:"+rule, "location:"+rule, mk(rule, libErrors(nil, vr), rr.Offences)))
 					break
 				}
 			}
@@ -347,6 +356,16 @@ func (k *ck) evaluate(cs *Case) map[string]validate.Result {
 	return res
 }
 
+// withShrunk adds a greedily shrunk document with the same per-rule
+// disagreement to the first records of a signature.
+func (k *ck) withShrunk(cs *Case, rule, generic, sig string, d detail) detail {
+	if k.reported[sig] >= perClassCap || len(cs.Text) < 80 {
+		return d
+	}
+	d.Shrunk = k.shrink(cs, rule, generic)
+	return d
+}
+
 func lenErrs(r *graphql.Result) int {
 	if r == nil {
 		return 0
@@ -369,6 +388,13 @@ func resultErrors(r *graphql.Result) []string {
 
 func run(c *core.Child) {
 	k := &ck{c: c, reported: map[string]int{}}
+	debug.SetGCPercent(400) // many short-lived allocations per document, small live heap
+	if p := os.Getenv("VERIF_C02_CPUPROFILE"); p != "" { // development aid
+		if f, err := os.Create(fmt.Sprintf("%s.%d", p, c.Batch)); err == nil {
+			pprof.StartCPUProfile(f)
+			defer pprof.StopCPUProfile()
+		}
+	}
 	k.witnesses()
 	k.typed()
 	k.family()
@@ -393,9 +419,21 @@ func (k *ck) typed() {
 			continue
 		}
 		env.Quiet = false
+		k.checkTypeMap(env, fmt.Sprintf("s%d/typemap", si))
 		for di := 0; di < nDocs; di++ {
 			dr := c.RNG(2, uint64(si), uint64(di))
-			d := typedoc.Gen(dr, m, typedoc.DefaultOptions(dr))
+			topts := typedoc.DefaultOptions(dr)
+			// the library's visitor dominates the cost (25 passes per document):
+			// most documents are kept moderate, a share stays large
+			if !dr.Chance(25) {
+				if topts.MaxDepth > 3 {
+					topts.MaxDepth = 3
+				}
+				if topts.MaxWidth > 3 {
+					topts.MaxWidth = 3
+				}
+			}
+			d := typedoc.Gen(dr, m, topts)
 			id := fmt.Sprintf("s%d/d%d", si, di)
 			var base map[string]validate.Result
 			if c.Begin(id) {
@@ -494,6 +532,37 @@ func (k *ck) mutated(env *build.Env, res *invaliddoc.Result, origin string, r *c
 		if out[op.Rule].Must {
 			c.Sample("invalid:"+op.Rule, map[string]interface{}{"document": text, "note": res.Note})
 		}
+	}
+}
+
+// checkTypeMap is a harness self-check: the set of types the reference
+// considers part of the schema (validate.Reachable over the model) must be
+// the set of names in the built schema's type map (introspection types aside).
+func (k *ck) checkTypeMap(env *build.Env, id string) {
+	c := k.c
+	if !c.Begin(id) {
+		return
+	}
+	reach := validate.Reachable(env.Model)
+	lib := map[string]bool{}
+	for name := range env.Schema.TypeMap() {
+		if !strings.HasPrefix(name, "__") {
+			lib[name] = true
+		}
+	}
+	var diff []string
+	for _, n := range sortedKeys(reach) {
+		if !lib[n] {
+			diff = append(diff, "reference-only:"+n)
+		}
+	}
+	for _, n := range sortedKeys(lib) {
+		if !reach[n] {
+			diff = append(diff, "library-only:"+n)
+		}
+	}
+	if len(diff) > 0 {
+		c.Violation("harness:typemap", "the reference's notion of the schema's types differs from the built schema: "+strings.Join(diff, " "), env.Model.SDL())
 	}
 }
 
